@@ -6,9 +6,9 @@ for _k in range(16):
     _c08_q["call_taken_c%d" % _k] = 500
     if _k:
         _c08_q["call_not_taken_c%d" % _k] = 500
-_c08_t = {k: (v if k in ("pushpop_regs", "nt") else v * 50) for k, v in _c08_q.items()}
+_c08_t = {k: (v if k in ("pushpop_regs", "nt") else v * 25) for k, v in _c08_q.items()}
 PROPS["C08"] = dict(
-    jobs=[job("restore", "c08_restore", cases={Q: 60000, T: 4000000})],
+    jobs=[job("restore", "c08_restore", cases={Q: 60000, T: 2000000})],
     rule="program pairs on the real interpreter from one seeded well-formed state: (call) call/callr with each of the 16 "
          "conditions and calla a0l/a1l/a0/a1 to ret / ret <same cond> / reti / rets #k, taken or not as the random flags "
          "decide, return address in page 0 and 1, both cpc values, the two stack words checked against the stated order; "
